@@ -16,9 +16,10 @@ RULE = ("per-run seed -> knobs + a history of 2-6 writer transactions (merges no
         "restarts) in which the sortable fields (a column-backed ID 'so', a numeric 'n') may be ADDED to the schema after the "
         "first segments were written, so that some segments lack the column; the ID has a posting-backed twin 'sp' with the "
         "same values. On the final multi-segment state 4 generated queries are run through: sortedby on every key incl. "
-        "reversed and two-key mixed directions; groupedby (incl. an overlapping KEYWORD facet); collapse with limit 1-2; "
-        "filter and mask given as query, Results and id set; search_page over several page sizes; len(results) under "
-        "limits. Order and group keys come from the reference model; filter/mask/paging are compared with the "
+        "reversed (per-facet and search-level reverse=True: limited = prefix, page = slice) and two-key mixed directions, documents "
+        "without a value must form one block at one end; groupedby (incl. an overlapping KEYWORD facet) with every group container "
+        "(ordered list, unordered list, count, best); collapse with limit 1-2; filter and mask given as query, Results and id set "
+        "(incl. filtered_count); search_page over several page sizes; len(results) under limits. Order and group keys come from the reference model; filter/mask/paging are compared with the "
         "unfiltered ranking of the same simulated state. Non-trivial = >=2 segments or deletions, and >=1 query with "
         ">=2 matches; distinct = distinct event-log SHA-256 x queries.")
 ASSUMPTIONS = ["the statement does not fix where documents WITHOUT a value for a sort key go, or how their group is named (the shipped paths disagree: see DESIGN section 7 C14): the order clause is evaluated on the results that have a value for every key, groups are compared as sets of documents over documents that have a value, and the placement/name of the others is recorded, not judged",
